@@ -307,6 +307,10 @@ def cpretty(n, table, depth=0):
         return "(" + ", ".join(c(a) for a in n["xs"]) + ")"
     if k == "un":
         return {"Not": "!", "Neg": "-"}.get(n["op"], n["op"]) + c(n["x"])
+    if k == "assign":
+        return "%s = %s" % (pretty(n["l"]), c(n["r"]))
+    if k == "assignop":
+        return "%s %s= %s" % (pretty(n["l"]), BINOPS.get(n["op"].replace("Assign", ""), n["op"]), c(n["r"]))
     return pretty(n)
 
 
